@@ -3,7 +3,7 @@
    pcapng model (NgModel: block/option padding, timestamp resolution) and the SCTP layer model
    (chunk padding), plus direct specifications of RadioTap's `align` and the assemblers' `min`. *)
 From Coq Require Import Lia ZifyBool List.
-From GP Require Import Base While Kernels NgModel LsctpModel.
+From GP Require Import Base While Kernels NgModel LsctpModel LradiotapModel.
 Import ListNotations.
 Open Scope Z_scope.
 
@@ -81,4 +81,17 @@ Proof.
   specialize (H o Hin). unfold align_ok in H. cbv zeta in H.
   apply andb_prop in H as [H1 H3]. apply andb_prop in H1 as [H1 H2]. rewrite Z.eqb_eq in H3.
   split; [lia|exact H3].
+Qed.
+
+(* ... and it is the RadioTap model's alignment step: `offset += align(offset, w)` in uint16 arithmetic *)
+Lemma go_radiotap_align_eq o w :
+  0 <= o < 65536 -> In w [1; 2; 4; 8] -> u16 (o + go_radiotap_align o w) = LradiotapModel.rt_align o w.
+Proof.
+  intros Ho Hw.
+  assert (H : forallb (fun w => forallb (fun o => u16 (o + go_radiotap_align o w) =? LradiotapModel.rt_align o w)
+                                        (zrange (Z.to_nat 65536) 0)) [1; 2; 4; 8] = true)
+    by (vm_compute; reflexivity).
+  rewrite forallb_forall in H. specialize (H w Hw). rewrite forallb_forall in H.
+  assert (Hin : In o (zrange (Z.to_nat 65536) 0)) by (apply in_zrange; lia).
+  specialize (H o Hin). apply Z.eqb_eq in H. exact H.
 Qed.
